@@ -1433,8 +1433,8 @@ add_error:
                 switch ($1->kind) {
                 case NODE_NUMBER:
                     /* 0 + X */
-                    if ($1->v.number == 0 &&
-                        ($3->type == TYPE_NUMBER || $3->type == TYPE_REAL)) {
+                    /* not for reals: 0 + (-0.0) is +0.0 */
+                    if ($1->v.number == 0 && $3->type == TYPE_NUMBER) {
                         $$ = $3;
                         break;
                     }
@@ -1500,8 +1500,8 @@ add_error:
                     break;
                 default:
                     /* X + 0 */
-                    if (IS_NODE($3, NODE_NUMBER, 0) &&
-                        ($1->type == TYPE_NUMBER || $1->type == TYPE_REAL)) {
+                    /* not for reals: (-0.0) + 0 is +0.0 */
+                    if (IS_NODE($3, NODE_NUMBER, 0) && $1->type == TYPE_NUMBER) {
                         $$ = $1;
                         break;
                     }
